@@ -10,7 +10,7 @@
    prefix-preference bounds are validated by the oracle (naive recurrence on every case inside the
    documented limits; every input run with prefer_prefix off and on), not proved. *)
 From Coq Require Import NArith List Bool.
-From NV Require Import Model.Matcher Spec.Matching Spec.Statements Proofs.C05Facts Proofs.ScoreFacts Proofs.DPSingle Proofs.DPScoreFacts.
+From NV Require Import Model.Matcher Spec.Matching Spec.Statements Proofs.C05Facts Proofs.ScoreFacts Proofs.DPSingle Proofs.DPScoreFacts Proofs.PrefixFacts.
 Import ListNotations.
 Local Open Scope N_scope.
 
@@ -31,6 +31,30 @@ Proof. exact DPScoreFacts.C04_upper. Qed.
 Theorem C04_single : C04_single_stmt.
 Proof. exact DPSingle.C04_single. Qed.
 
+(* prefix preference.  KNOWN FINDING K2: the clause "turning prefix preference on never lowers a score
+   and raises it by at most the prefix bonus" is FALSE for the optimal matcher on the matrix path with
+   needles of three or more characters (C04_prefix_refuted, machine-checked witnesses that the real code
+   reproduces: "xxxxxxxxxxx/axAbc"/"abc" scores 68 without and 67 with the preference;
+   "a" + 18 x + "aBcd"/"abcd" scores 77 and 86).  It holds everywhere else: all five linear algorithms,
+   every fuzzy call answered by the exact / single-character / tight-window / greedy-fallback paths, and
+   the matrix path for two-character needles (C04_prefix_outside_K2); `dp_taken` is the executable
+   Known predicate. *)
+Definition known_K2 (cfg : config) (a : algo) (hs ns : ustr) : Prop :=
+  a = Fuzzy /\ (3 <= length (cs ns))%nat /\ PrefixFacts.dp_taken cfg hs ns = true.
+Theorem C04_prefix_outside_K2 :
+  forall cfg a hs ns s0 i0 s1 i1, bonus_bounded cfg -> ~ known_K2 cfg a hs ns ->
+    run (with_prefix cfg false) a hs ns = Match s0 i0 -> run (with_prefix cfg true) a hs ns = Match s1 i1 ->
+    s0 <= s1 /\ s1 <= s0 + 8.
+Proof.
+  intros cfg a hs ns s0 i0 s1 i1 Hb HK H0 H1.
+  apply (PrefixFacts.C04_prefix_weak cfg a hs ns s0 i0 s1 i1 Hb); [|exact H0|exact H1].
+  intros ->. destruct (PrefixFacts.dp_taken cfg hs ns) eqn:D; [|right; reflexivity].
+  left. destruct (Compare_dec.le_lt_dec (length (cs ns)) 2) as [L|L]; [exact L|].
+  exfalso. apply HK. repeat split; [exact L|exact D].
+Qed.
+Theorem C04_prefix_refuted : ~ C04_prefix_stmt.
+Proof. exact PrefixFacts.C04_prefix_counterexample. Qed.
+
 (* the matrix path is taken within the documented limits (100 KiB cells, needle 2048, haystack 65535):
    the translated guard of MatrixSlab::alloc is the documented one *)
 Theorem C04_slab_guard : forall hl nl, alloc_refuses hl nl = spec_matrix_refuses hl nl.
@@ -46,4 +70,6 @@ Print Assumptions C04_max_bonus.
 Print Assumptions C04_prefix_linear.
 Print Assumptions C04_upper.
 Print Assumptions C04_single.
+Print Assumptions C04_prefix_outside_K2.
+Print Assumptions C04_prefix_refuted.
 Print Assumptions C04_slab_guard.
